@@ -102,6 +102,10 @@ NOP = '#define C14_NO_PIECES 1\n'      # start states without stored pieces (eve
 ONLYP = '#define C14_ONLY_PIECES 1\n'   # start states STATE_BOUNDARY with 1..PMAX stored pieces (an open candidate carried over)
 parse_unit('c14_parse_call', 3, 5, 3, 300, extra=NOP)
 parse_unit('c14_parse_call_pieces', 2, 5, 3, 300, extra=ONLYP)
+# chunks of ONE and TWO bytes: some matcher paths exist only when a byte is the last of its chunk at offset 0 (`pos + 1 == len`), e.g. a lone CR chunk after a set-aside CR
+parse_unit('c14_parse_call_n1', 1, 5, 3, 300, extra=NOP)
+parse_unit('c14_parse_call_n2', 2, 5, 3, 300, extra=NOP)
+parse_unit('c14_parse_call_pieces_n1', 1, 5, 3, 300, extra=ONLYP)
 parse_unit('c14_parse_call_n4', 4, 5, 3, 1500, extra=NOP, thorough_only=True)
 parse_unit('c14_parse_call_pieces_n3', 3, 5, 3, 1500, extra=ONLYP, thorough_only=True)
 
